@@ -116,6 +116,10 @@ def cases(prop, tier, seed):
             for t in range(reps):
                 out.append(dict(kind=prop, model=name, reg=True, dseed=int(rs.randint(1 << 30)), pat=t % 4, weights=bool(t % 2),
                                 n=int(rs.randint(0 if prop == "C15" else 4, 11)), t=t, key=[prop, name, t]))
+    if prop == "C15":
+        # structured case (independent of the seed): two labeled targets, both equal -- the fallback statistics are (mean, 0)
+        for name in ("Sk-NeedsThree", "SkNormal-NeedsThree"):
+            out.append(dict(kind=prop, model=name, reg=True, dseed=11, pat=5, weights=False, n=6, t=0, key=[prop, name, "identical_targets"]))
     return out
 
 
@@ -584,6 +588,9 @@ def run_c15(case, fail):
         y[0] = 1.5
     elif pat == 2:
         y[rs.rand(n) < 0.4] = np.nan
+    elif pat == 5:
+        y[:] = np.nan
+        y[1] = y[4] = 0.87
     n_lab = int(np.sum(~np.isnan(y)))
     lab_mask = ~np.isnan(y)
     w = (rs.rand(n) + 0.1) if case["weights"] and z.get("weights", True) else None
